@@ -11,6 +11,7 @@ EXTENDS LinForm, TLC, Json
 CONSTANTS NP, NE,        \* initial leaf points / leaf expressions
           Depth,         \* maximal number of well-typed operations
           IllTyped,      \* TRUE: also generate the one-step programs with operands of undocumented kinds
+          Sim,           \* TRUE under -simulate: one random operator per step instead of all successors
           Focus          \* "all": every well-typed program; "small": only the depth-3 programs that scale a point by the 4th
                          \* scalar, square / pair it, and then push the resulting SMALL coefficient through one more operator
 \* ---- objects
@@ -155,7 +156,7 @@ InFocus(o) == \/ Focus = "all"
               \/ Len(hist) = 2 /\ Uses(o, Last)
 Next == /\ ~done
         /\ \/ /\ Len(hist) < Depth
-              /\ \E o \in {w \in WellTyped : ~DivByZero(w) /\ InFocus(w)} :
+              /\ \E o \in (LET C == {w \in WellTyped : ~DivByZero(w) /\ InFocus(w)} IN IF Sim THEN {RandomElement(C)} ELSE C) :
                     objs' = Append(objs, Apply(o, objs)) /\ hist' = Append(hist, o) /\ done' = FALSE
            \/ /\ IllTyped /\ hist = <<>>
               /\ \E o \in IllOps : objs' = Append(objs, Apply(o, objs)) /\ hist' = Append(hist, o) /\ done' = TRUE
